@@ -91,6 +91,15 @@ if case["parent_threads"] > 1:
 orig = itf.run_bldfm_single
 def delayed(config, tower, met_index=0, surface_flux=None, cache=None):
     time.sleep(C14.task_delay(case, tower.name, met_index))
+    flt = case.get("fault")
+    if flt and tower.name == "T" + str(flt[0]) and met_index == flt[1]:
+        # a transient fault in ONE task (a worker colliding on a cache / wisdom file): the first attempt at this (tower, step) raises,
+        # exactly once across all processes (O_EXCL marker file)
+        try:
+            os.close(os.open(os.path.join(os.getcwd(), "fault.marker"), os.O_CREAT | os.O_EXCL | os.O_WRONLY))
+            raise OSError(11, "Resource temporarily unavailable")
+        except FileExistsError:
+            pass
     return orig(config, tower, met_index=met_index, surface_flux=surface_flux, cache=cache)
 itf.run_bldfm_single = delayed
 try:
@@ -106,6 +115,8 @@ try:
     out["parallel"] = [[name, [canon(r) for r in series]] for name, series in res.items()]
 except ValueError as e:
     out["parallel"] = "ValueError"
+except Exception as e:
+    out["parallel"] = "raised:" + type(e).__name__
 finally:
     itf.run_bldfm_single = orig
 print("RESULT " + json.dumps(out))
@@ -158,6 +169,8 @@ def judge(case, out):
         if out["parallel"] != "ValueError":
             return fail("C14/invalid-strategy", "an unknown parallel strategy was not rejected", None, "ValueError", "accepted", 0)
         return None
+    if case.get("fault") and isinstance(out["parallel"], str) and out["parallel"].startswith("raised:"):
+        return None      # under an injected fault the driver may give up with an error; what it RETURNS must be the single runs
     if out["parallel"] != exp:
         return fail("C14/parallel/%s" % case["strategy"], "run_bldfm_parallel differs from the individual single runs (content, key order or time order)",
                     None, "equal", diff(exp, out["parallel"]), 0)
@@ -232,10 +245,17 @@ def run(rng, tier, deep):
                 repeat_met=False, timestamps="none", cseed=11 * nt + ns, dseed=7 * w + ns, max_delay=0.02 * min(w, 4), stub=True,
                 no_ref=bool((nt + ns + w) % 5 == 0))
            for nt in (1, 2, 3, 4, 5) for ns in (1, 2, 3, 4) for w in (1, 2, 3, 4, 5, 6, 8) for stg in ("towers", "time", "both")]
+    # one task fails once with a transient OSError: either the driver raises, or every slot still holds its own single run
+    for k in range(budget(tier, deep, 3, 12)):
+        nt, ns = int(rng.integers(1, 4)), int(rng.integers(2, 5))
+        box.append(dict(towers=nt, steps=ns, strategy=["time", "both", "towers"][k % 3], workers=int(rng.integers(1, 5)), order="hash", prelude_flux=False,
+                        parent_threads=1, cache=False, footprint=True, repeat_met=False, timestamps="ascending", cseed=50 + k, dseed=60 + k, max_delay=0.0,
+                        stub=True, fault=[int(rng.integers(nt)), int(rng.integers(1, ns))], _always=True))
     if deep or tier == "thorough":
         sweep = box
     else:
-        sweep = [box[int(i)] for i in rng.choice(len(box), size=14, replace=False)]
+        plain = [b for b in box if not b.get("_always")]
+        sweep = [plain[int(i)] for i in rng.choice(len(plain), size=14, replace=False)] + [b for b in box if b.get("_always")]
     cases = cases + sweep
     with ThreadPoolExecutor(max_workers=8) as ex:
         outs = list(ex.map(run_real, cases))
